@@ -61,7 +61,7 @@ def bin_group(op, a, b, extended):
 def fam_binop(tier):
     thorough = tier == 'thorough'
     INTS_ = INTS + ([3, 65536, (1 << 31) - 1, -(1 << 31) - 1, (1 << 32) - 1, 1 << 62] if thorough else [])
-    FLOATS_ = FLOATS + ([1.0, -2.5, 1e-7, 1e20, 12345678.0] if thorough else [])
+    FLOATS_ = FLOATS + ([-0.0, 1.0, -2.5, 1e-7, 1e20, 12345678.0] if thorough else [])
     # int x int: every operator, full alphabet
     for op in ALLOPS:
         for a in INTS_:
